@@ -557,11 +557,14 @@ def run_job(nd, job, ref):
         return call_python_driver(nd, job, seen)
 
     if drv == "jacobian" and len(x) > 10:
+        # the pinned bindings reject more than 10 variables (with whatever exception); a tree that supports them
+        # must agree with the Rust jacobian like everywhere else
         try:
-            nd.jacobian(lambda v: [v[0]], x)
-        except TypeError:
-            return None  # documented limit of the bindings; nothing to compare
-        return {"at": -1, "what": "jacobian accepted more than 10 variables"}
+            res = call_driver()
+        except BaseException as e:  # noqa: BLE001
+            if isinstance(e, (SystemExit, MemoryError, KeyboardInterrupt)):
+                raise
+            return None
     try:
         res = call_driver()
     except BaseException as e:  # noqa: BLE001 - includes pyo3's PanicException
